@@ -84,6 +84,53 @@ where
     });
 }
 
+/// Three connections in three threads, two operations each.
+fn three_threads(name: &'static str, keys: [[u8; 40]; 3]) {
+    let want: Vec<Vec<Vec<u8>>> = keys
+        .iter()
+        .enumerate()
+        .map(|(t, k)| {
+            let mut r = Recurrence::vanilla(k);
+            (0..2)
+                .map(|op| {
+                    let mut d = plain(t as u8, op);
+                    r.enc(&mut d);
+                    d
+                })
+                .collect()
+        })
+        .collect();
+    let want = std::sync::Arc::new(want);
+    let mut builder = loom::model::Builder::new();
+    builder.preemption_bound = None;
+    builder.check(move || {
+        SCHEDULES.fetch_add(1, std::sync::atomic::Ordering::Relaxed);
+        let tick = Arc::new(AtomicUsize::new(0));
+        let mut hs = vec![];
+        for (t, k) in keys.iter().enumerate() {
+            let mut c = wow_srp::vanilla_header::ProofSeed::new().into_client_header_crypto(&user(), *k, 0).1;
+            let tk = tick.clone();
+            hs.push(loom::thread::spawn(move || {
+                let mut out = vec![];
+                for op in 0..2 {
+                    tk.fetch_add(1, Ordering::SeqCst);
+                    let mut d = plain(t as u8, op);
+                    c.encrypt(&mut d);
+                    out.push(d);
+                }
+                out
+            }));
+        }
+        let got: Vec<Vec<Vec<u8>>> = hs.into_iter().map(|h| h.join().unwrap()).collect();
+        if got != *want {
+            let mut m = MISMATCH.lock().unwrap();
+            if m.is_none() {
+                *m = Some(format!("{name}: three connections in three threads produced {got:x?}, sequential reference {:x?}", *want));
+            }
+        }
+    });
+}
+
 fn rec_expect(mut r: Recurrence, thread: u8, enc: bool) -> Vec<Vec<u8>> {
     (0..OPS)
         .map(|op| {
@@ -172,6 +219,10 @@ fn main() {
     );
     harnesses += 1;
 
+    // 6. three Vanilla connections (two of them with the same key) in three threads
+    three_threads("three vanilla connections", [k, k2, k]);
+    harnesses += 1;
+
     let schedules = SCHEDULES.load(std::sync::atomic::Ordering::Relaxed);
     let orders = ORDERS.lock().unwrap().len();
     let mismatch = MISMATCH.lock().unwrap().clone();
@@ -188,7 +239,7 @@ fn main() {
             }
             println!(
                 "{}",
-                serde_json::json!({"ok": true, "schedules": schedules, "harnesses": harnesses, "threads": 2, "ops_per_thread": OPS,
+                serde_json::json!({"ok": true, "schedules": schedules, "harnesses": harnesses, "threads": "2 threads x 3 ops (five harnesses), 3 threads x 2 ops (one harness)", "ops_per_thread": OPS,
                     "distinct_operation_orders_observed": orders, "distinct_operation_orders_possible": 20, "preemption_bound": "none"})
             );
         }
